@@ -21,7 +21,7 @@ import datetime
 import json
 import os
 
-from harness import vcore, vscen
+from harness import vcore, vscen, vskel
 from vlib import core
 
 PROPS = ["Props/C01.v"]
@@ -152,10 +152,12 @@ def oracle(scen, out, sweep=None):
 
 def run(ctx):
     thorough = ctx.thorough()
-    n = 3000 if thorough else 260
-    n_sweep = 60 if thorough else 8
+    n = 3000 if thorough else 380
+    n_sweep = 60 if thorough else 12
     if os.path.exists(os.path.join(core.COQ, "Props", "C01.v")):
         core.check_props(ctx, PROPS)
+    # syntactic ties regenerated from the working tree: stage order and the shape of the stage functions
+    vskel.check(ctx, ("verify", "signatures", "expiry"))
     state = {"sweeps": 0, "bases": 0}
 
     def make_each(limit):
@@ -193,16 +195,7 @@ def run(ctx):
         recs.extend(g)
     model = vcore.run_model(recs)
 
-    # model gap (reported to the model's author, not a property violation): a gpg signature is made over the content
-    # AND the signature's "other_headers"; the model's signature oracle is keyed by (key id, message, signature value)
-    # only, so an edit of other_headers is rejected by the implementation and accepted by the model
-    gaps = 0
-    for r in recs:
-        sw = r.get("sweep")
-        if (sw and sw["path"][-1] == "other_headers" and r["diff"] and r["diff"].startswith("verdict: impl SignatureVerificationError")
-                and "ok" not in r["impl"][0]):
-            r["model_gap"], r["diff"] = r["diff"], None
-            gaps += 1
+    gaps = 0      # (the gpg other_headers gap of the first model version is closed: Meta.v gpg_verify asks the oracle about signature:other_headers)
     # property oracle on the implementation side
     nviol = 0
     sweep_stats = {"cases": 0, "rejected": 0, "content_preserving": 0, "preserving_paths": {}, "unmodelled": 0,
@@ -262,9 +255,7 @@ def run(ctx):
                                            "the single-leaf edit sweep of accepted honest layouts. compared with the model: verdict class, "
                                            "summary link, inspection log. non-trivial = carries a layout_* / key-set / boundary tag or is a "
                                            "sweep case; distinct = different (root file, link dir, keys, clock)",
-                                   "model_gap": {"count": gaps, "what": "gpg signature 'other_headers' edited: implementation rejects "
-                                                 "(the headers are part of what gpg signs), the model's signature oracle ignores them "
-                                                 "and accepts; classified separately, not compared"},
+                                   "model_gap": {"count": gaps},
                                    "single_leaf_sweep": sweep_stats, "oracle_violations": len(bad), "root_format": fmt,
                                    "expiry_boundary_outcomes": dict(sorted(bnd.items())),
                                    "oracle": "on the implementation's verdict alone: every edit of a leaf of the serialised layout "
